@@ -198,8 +198,8 @@ def hexVal? (c : Char) : Option Nat :=
 /-- Is `n` a UTF-16 surrogate (not a `char`)? `char::try_from(n).unwrap()` panics exactly there for `n < 0x10000`. -/
 def isSurrogate (n : Nat) : Bool := 0xD800 ≤ n && n ≤ 0xDFFF
 
-/-- `tokens.rs::unescape` from a given automaton state.  `err` = the `Failed` state was entered (invalid escape);
-`panic` = a `\uXXXX` escape denoting a surrogate was reached first (finding F16).  An escape still open at the end
+/-- `tokens.rs::unescape` from a given automaton state.  `err` = the `Failed` state was entered (invalid escape,
+which includes a `\uXXXX` escape denoting a surrogate — it used to panic, finding F16, fixed).  An escape still open at the end
 of the literal is silently dropped, as in the code. -/
 def unescFrom : EscSt → List Char → Res (List Char)
   | _, [] => .ok []
@@ -224,7 +224,7 @@ def unescFrom : EscSt → List Char → Res (List Char)
   | .u3 a b c', c :: r =>
     match hexVal? c with
     | some d =>
-      if isSurrogate (a * 4096 + b * 256 + c' * 16 + d) then .panic
+      if isSurrogate (a * 4096 + b * 256 + c' * 16 + d) then .err
       else (unescFrom .none r).map (Char.ofNat (a * 4096 + b * 256 + c' * 16 + d) :: ·)
     | none => .err
 
@@ -296,31 +296,27 @@ def mkFloat (neg : Bool) (intDs fracDs : List Char) (expNeg : Bool) (expDs : Lis
   let p := stripZeros (intDs.length + fracDs.length + 1) m e
   .float (.fin neg p.1 p.2)
 
+/-- An optional `+` or `-` (`recognize_float` accepts both, for the number and for the exponent). -/
+def stripPlusMinus (inp : List Char) : Bool × List Char :=
+  match inp with
+  | '-' :: r => (true, r)
+  | '+' :: r => (false, r)
+  | _ => (false, inp)
+
 /-- Optional exponent of `recognize_float`: `[eE][+-]?digit+`; an `e` not followed by digits is a hard failure (`cut`). -/
 def lexExponent (inp : List Char) : Option (Bool × List Char × List Char) :=
   match inp with
   | c :: r =>
     if c = 'e' ∨ c = 'E' then
-      let (eneg, r') := match r with
-        | '-' :: r' => (true, r')
-        | '+' :: r' => (false, r')
-        | _ => (false, r)
-      match r'.takeWhile isDigit with
+      match (stripPlusMinus r).2.takeWhile isDigit with
       | [] => none
-      | ds => some (eneg, ds, r'.dropWhile isDigit)
+      | ds => some ((stripPlusMinus r).1, ds, (stripPlusMinus r).2.dropWhile isDigit)
     else some (false, [], inp)
   | [] => some (false, [], inp)
 
-/-- `nom::number::double` restricted to `recognize_float` (the `nan`/`inf` alternatives are unreachable behind
-`identifier`): `[+-]? (digit+ ('.' digit*)? | '.' digit+) ([eE][+-]?digit+)?`, value as an exact decimal. -/
-def lexFloat (inp : List Char) : Option (Value × List Char) :=
-  let (neg, r) := match inp with
-    | '-' :: r => (true, r)
-    | '+' :: r => (false, r)
-    | _ => (false, inp)
-  let intDs := r.takeWhile isDigit
-  let r1 := r.dropWhile isDigit
-  match intDs, r1 with
+/-- `recognize_float` after the sign: `(digit+ ('.' digit*)? | '.' digit+) ([eE][+-]?digit+)?`. -/
+def lexFloatBody (neg : Bool) (r : List Char) : Option (Value × List Char) :=
+  match r.takeWhile isDigit, r.dropWhile isDigit with
   | [], '.' :: r2 =>
     match r2.takeWhile isDigit with
     | [] => none
@@ -329,14 +325,19 @@ def lexFloat (inp : List Char) : Option (Value × List Char) :=
       | some (en, eds, rest) => some (mkFloat neg [] fr en eds, rest)
       | none => none
   | [], _ => none
-  | _, '.' :: r2 =>
+  | intDs, '.' :: r2 =>
     match lexExponent (r2.dropWhile isDigit) with
     | some (en, eds, rest) => some (mkFloat neg intDs (r2.takeWhile isDigit) en eds, rest)
     | none => none
-  | _, _ =>
+  | intDs, r1 =>
     match lexExponent r1 with
     | some (en, eds, rest) => some (mkFloat neg intDs [] en eds, rest)
     | none => none
+
+/-- `nom::number::double` restricted to `recognize_float` (the `nan`/`inf` alternatives are unreachable behind
+`identifier`): `[+-]? (digit+ ('.' digit*)? | '.' digit+) ([eE][+-]?digit+)?`, value as an exact decimal. -/
+def lexFloat (inp : List Char) : Option (Value × List Char) :=
+  lexFloatBody (stripPlusMinus inp).1 (stripPlusMinus inp).2
 
 /-- `decimal_or_float` after the optional `-` has been stripped (`inp` = the whole input, for the float branch). -/
 def lexDecimalBody (neg : Bool) (r inp : List Char) : Option (Value × List Char) :=
@@ -548,8 +549,8 @@ def printA (st : Style) (i : Nat) : Value → List Char
     else
       '(' :: (printAttrs st i attrs ++
       (if items.length = 0 then []
-       -- one item: a space, then the item *without* braces even when it is a slot
-       else if items.isSoleVal || items.isSoleSlot then ' ' :: printItems st i i true false items
+       -- one value item: a space, then the item (a sole slot takes the braces, as in `printV`; C09-N2 fixed)
+       else if items.isSoleVal then ' ' :: printItems st i i true false items
        else pad st ++ '{' :: (startBlock st i items.length ++ printItems st (inner st i items.length) i true true items
           ++ endBlock st i ++ ['}'])) ++ [')'])
 end
@@ -607,11 +608,12 @@ def lexPrim (inp : List Char) : Option (Res (Value × List Char)) :=
     else none
 
 /-- Does the input start with something that ends a body-less record in the `AfterAttr` state:
-a separator, a closing delimiter, a line ending — or the end of the document? -/
+a separator, a closing delimiter, a colon (the record is then a slot key; C09-N3 fixed), a line ending — or the end
+of the document? -/
 def endsRecord (inp : List Char) : Bool :=
   match inp with
   | [] => true
-  | c :: _ => isSep c || c = ')' || c = '}' || (lineEnding? inp).isSome
+  | c :: _ => isSep c || c = ')' || c = '}' || c = ':' || (lineEnding? inp).isSome
 
 mutual
 /-- A value in item position: primitive, record starting with an attribute, or `{ … }`. -/
